@@ -52,6 +52,7 @@ func init() {
 			{ID: "C11-R26", Title: "mutex-guarded VM maps are copied, not aliased, into another VM (shared with C09-R5)", Floor: 2, Run: c09r5},
 			{ID: "C11-R27", Title: "defaults do not replace what the host gave (shared with C08-R33)", Floor: 1, Run: defaultsDoNotReplaceWhatTheHostGave},
 			{ID: "C11-R28", Title: "removals come last", Floor: 1, Run: removalsComeLast},
+			{ID: "C11-R29", Title: "a module that is made with members points their back-reference at itself", Floor: 2, Run: membersPointAtTheModuleTheyAreIn},
 		},
 	})
 }
